@@ -33,11 +33,11 @@ for m in sorted(glob.glob(V+'/seeded/C*/meta.json')):
     rows.append(f"| {d['id']} | {d['property']} | {d['what_changed']} | {c}{' — '+note if note else ''} |")
 bl=[json.load(open(m)) for m in sorted(glob.glob(V+'/seeded/C*/meta.json'))]
 bl=[d for d in bl if d.get('blind')]
-def rnd(d): return 8 if d['id'][-1]=='m' else 7 if d['id'][-1]=='k' else 6 if d['id'][-1] in 'ij' else (5 if d['id'][-1] in 'gh' else (4 if d['id'][-1] in 'ef' else 3))
+def rnd(d): return 9 if d['id'][-1]=='n' else 8 if d['id'][-1]=='m' else 7 if d['id'][-1]=='k' else 6 if d['id'][-1] in 'ij' else (5 if d['id'][-1] in 'gh' else (4 if d['id'][-1] in 'ef' else 3))
 def tally(k): 
     x=[d for d in bl if rnd(d)==k]
     return f"{sum(1 for d in x if d['blind']=='caught')} caught by a rule about the broken clause, {sum(1 for d in x if d['blind']=='incidental')} reported only incidentally, {sum(1 for d in x if d['blind']=='missed')} missed (of {len(x)})"
-seeds=f"{caught} of {n} seeded changes are reported by at least one check on the current machinery. First contact (blind): round 3 — {tally(3)}; round 4 — {tally(4)}; round 5 — {tally(5)}; round 6 (property text only) — {tally(6)}; round 7 (told to avoid all earlier changes) — {tally(7)}; round 8 (same) — {tally(8)}.\n\n"+"\n".join(rows)
+seeds=f"{caught} of {n} seeded changes are reported by at least one check on the current machinery. First contact (blind): round 3 — {tally(3)}; round 4 — {tally(4)}; round 5 — {tally(5)}; round 6 (property text only) — {tally(6)}; round 7 (told to avoid all earlier changes) — {tally(7)}; round 8 (same) — {tally(8)}; round 9 (same, 8 properties) — {tally(9)}.\n\n"+"\n".join(rows)
 s=open(V+'/DESIGN.md').read()
 s=block('fixes',fixes,s); s=block('open',openf,s); s=block('seeds',seeds,s)
 # per-property obligation counts
